@@ -55,6 +55,28 @@ theorem C14_offer_bound (fx fm : Bool) (nv nc : Nat) (pol : Policy) (bytes : Byt
   · intro b v h; subst h; exact this.1
   · intro b v h; subst h; exact this.1
 
+/-- **Hostile counts are rejected before anything is offered.**  If the Options block states a number of dual or
+primal values that is negative or exceeds the declared problem size (and the handler accepted the options), the
+checks after the Options block return Bad_Format and no vector is offered.  (The counts are C `int`s — any value from
+INT_MIN to INT_MAX; after this check they are non-negative, which is why offered counts are `Nat` in the model.) -/
+theorem C14_hostile_counts_rejected (fm : Bool) (nVars nCons : Nat) (pol : Policy) (binary : Bool) (o : Opts) (inp : Bytes)
+    (hrv : pol.optRv = 0) (h : o.z 3 < 0 ∨ o.z 3 > nVars ∨ o.z 1 < 0 ∨ o.z 1 > nCons) :
+    ∃ r, preCheck fm nVars nCons pol binary (some o) inp = .error r ∧ r.code = .badFormat ∧ r.evs = [] := by
+  unfold preCheck
+  simp only [hrv, ne_eq, not_true_eq_false, if_false]
+  by_cases h3 : o.z 3 > nVars ∨ o.z 3 < 0
+  · simp only [h3, if_true]; exact ⟨_, rfl, rfl, rfl⟩
+  · have h1 : o.z 1 > nCons ∨ o.z 1 < 0 := by omega
+    simp only [h3, if_false, h1, if_true]; exact ⟨_, rfl, rfl, rfl⟩
+
+/-- `msg\n\nOptions\n3\n1\n1\n0\n2\n-1\n2\n2\n1\n2\n3\n4\n5\nobjno 0 0\n`: dual count −1 with a valid primal count -/
+def negDual : Bytes := [109, 115, 103, 10, 10, 79, 112, 116, 105, 111, 110, 115, 10, 51, 10, 49, 10, 49, 10, 48, 10, 50, 10, 45, 49, 10, 50, 10, 50, 10, 49, 10, 50, 10, 51, 10, 52, 10, 53, 10, 111, 98, 106, 110, 111, 32, 48, 32, 48, 10]
+
+/-- … on a concrete file, for a read-while-Size()≠0 handler: only the message and the options are delivered -/
+theorem C14_negative_dual_count_instance :
+    readSol true true 2 2 ⟨0, .whileNz, .whileNz, .all⟩ negDual =
+      ⟨.badFormat, [.msg [109, 115, 103, 10] 0, .options [3, 1, 1, 0, 2, -1, 2, 2] false []], true⟩ := by decide
+
 /-- Text format: a suffix name is delivered with fewer than `namelen` characters and a table
 with at most `tablen` characters, `namelen`/`tablen` being the header fields of that suffix
 (the name buffer of `namelen` bytes and the table buffer of `tablen` bytes are never overrun). -/
